@@ -7,6 +7,17 @@ VERIF = Path(__file__).resolve().parent.parent
 
 # property id -> (design section, what the theorems give, what is assumed)
 CLAIMS = {
+    "C02": ("8/C02",
+            "Lean 4 theorems: search_on_grid (on the oversampled grid each of the three searches maps original abscissa k to "
+            "knot k*n), fixedPoints_on_grid, recreate_match_means (for ANY recreated value vector of the right length - hence "
+            "for all six strategies and any parameters - every PowLike exponent, both target rules and all three strategies: "
+            "the target-rule integral of the matched series over original interval k equals y_k*(x_{k+1}-x_k), i.e. its mean "
+            "is the original average), the trapezoid-reference variant, block_average_rect (rectangle target: block averages "
+            "return the original abscissae exactly and every interval's average), with_appended_sample, weaver_pipeline "
+            "(the same through the Weaver state machine). Built on C01, C04, C10, C17. Tie: session correspondence of the "
+            "public pipeline + process.average, thorough tier on every bundled dataset.",
+            "the final sample's block is not an interval (m samples, m-1 intervals): covered after append_one_sample; optional "
+            "final smoothing not modelled; cubic-spline values external (the theorem does not depend on them)."),
     "C08": ("8/C08",
             "Lean 4 theorems about the Weaver state machine written in the code's assignment order: domain_history (induction "
             "over ALL histories of the ten domain operations: working = reference = the original with exactly those "
@@ -194,7 +205,7 @@ NOT_YET = {
 ALL = [f"C{n:02d}" for n in range(1, 21)]
 
 # properties whose theorems, tie and check are complete enough to be claimed
-BUILT = ["C01", "C03", "C04", "C05", "C06", "C07", "C08", "C09", "C11", "C13", "C15", "C16", "C20", "C10", "C12", "C14", "C17", "C18", "C19"]
+BUILT = ["C01", "C02", "C03", "C04", "C05", "C06", "C07", "C08", "C09", "C11", "C13", "C15", "C16", "C20", "C10", "C12", "C14", "C17", "C18", "C19"]
 
 
 
